@@ -32,7 +32,7 @@ def run(res):
     prove_obligations(res, THEOREMS.get("C07", []))
     files, bad = compressed_files(rng, 150 if thorough else 24, max_n=40)
     gfiles = grammar_files(rng, 80 if thorough else 10)
-    sparse, _ = compressed_files(rng, 20 if thorough else 2, max_n=1500, shapes=["sparse", "rl_wide"], orders=[0, 1], levels=[3, 8])
+    sparse, _ = compressed_files(rng, 20 if thorough else 2, max_n=1500, shapes=["sparse", "rl_wide", "zipf"], orders=[0, 1], levels=[3, 8])
     base = files + gfiles + sparse
     qs = []
     def add(dt, hx, n_hint, all_scripts):
